@@ -242,6 +242,9 @@ func (g *G) slice(kind string, mtype reflect.Type) (arg interface{}, in *Intent)
 	if g.V.Big && g.R.Chance(1, 200) {
 		n = []int{255, 256, 257}[g.R.Intn(3)]
 	}
+	if g.V.Big && (ek == "Bool" || ek == "Uint8" || ek == "Int8") && g.R.Chance(1, 60) {
+		n = []int{65535, 65536}[g.R.Intn(2)] // the 2-byte / 4-byte length boundary of array headers (cheap element kinds only)
+	}
 	st := mtype // slice type expected by the method
 	sl := reflect.MakeSlice(st, 0, n)
 	in = &Intent{K: IArr}
